@@ -68,9 +68,42 @@ def _rand_case(draw):
     return {'mode': 'exprs', 'lay': lay, 'exprs': exprs}
 
 
+@st.composite
+def _rewrite_case(draw):
+    """The same file names hold a different recording later in the same process."""
+    lay = draw(S.layout(max_n=24, big_endian=True))
+    n2 = draw(st.integers(1, 30).filter(lambda x: x != lay['n']))
+    lay2 = dict(lay, n=n2, salt=lay['salt'] + 1)
+    k = len(lay['parts'])
+    if n2 < k:
+        n2 = lay2['n'] = k + draw(st.integers(0, 3))
+    lay2['parts'] = draw(S.composition(n2, k).filter(lambda p: len(p) == k)) if k > 1 else [n2]
+    lay2['chunk'] = draw(st.integers(1, n2 + 3))
+    return {'mode': 'rewrite', 'lay': lay, 'lay2': lay2}
+
+
+def _large_cases(th):
+    # requests longer than any internal block size one would pick (2**16, 2**18, 2**20 rows)
+    sizes = [65536 + 24464, 2 ** 18 + 5] + ([2 ** 20 + 3, 3 * 2 ** 16 + 100] if th else [])
+    for i, n in enumerate(sizes):
+        for backend in ('flat', 'npy'):
+            parts = [n // 3, n - n // 3] if backend == 'flat' else [n]
+            lay = {'n': n, 'nch': 2, 'dtype': 'int16', 'backend': backend, 'parts': parts,
+                   'offset': 0, 'chunk': n // 4 + 1, 'salt': i}
+            yield {'mode': 'exprs', 'lay': lay, 'exprs': [
+                [{'t': 'slice', 'a': None, 'b': None}, None],
+                [{'t': 'slice', 'a': 1, 'b': n - 1}, {'t': 'rev'}],
+                [{'t': 'list', 'v': list(range(0, n, 3)), 'as': 'int64'}, {'t': 'list', 'v': [1]}],
+                [{'t': 'slice', 'a': -(2 ** 16 + 9), 'b': None}, None]]}
+
+
 def drivers(tier):
     th = tier == 'thorough'
     return [
+        dict(kind='enum', name='large', exhaustive=False,
+             bound='requests of more than 2**16 / 2**18 (thorough: 2**20) rows',
+             cases=lambda: _large_cases(th)),
+        dict(kind='hyp', name='rewrite', strategy=_rewrite_case(), examples=6000 if th else 600),
         dict(kind='enum', name='small', exhaustive=True,
              bound='n<=%d, all compositions, all index expressions x 5 column selectors' %
                    (8 if th else 6),
@@ -112,7 +145,26 @@ def _check_expr(reader, A, e, c, stats):
     stats['exprs'] += 1
 
 
+def _check_rewrite(case):
+    """A reader created after the files were replaced describes the new files."""
+    stats = {'exprs': 0, 'cross': 0, 'neg': 0, 'arr+cols': 0}
+    with env.scratch() as d:
+        for lay in (case['lay'], case['lay2']):
+            with S.OpenReader(lay, must_return, dirpath=d) as o:
+                r, A = o.reader, o.A
+                require(tuple(r.shape) == A.shape, 'shape of a reader on re-written files',
+                        key='meta-shape', observed=r.shape, expected=A.shape)
+                out = must_return('reader[:]', lambda: r[:])
+                same_array('reader[:] on re-written files',
+                           out.astype(out.dtype.newbyteorder('=')),
+                           A.astype(A.dtype.newbyteorder('=')), key='values:slice')
+                del r, out
+    return stats
+
+
 def check(case):
+    if case['mode'] == 'rewrite':
+        return _check_rewrite(case)
     lay = case['lay']
     n = lay['n']
     stats = {'exprs': 0, 'cross': 0, 'neg': 0, 'arr+cols': 0}
@@ -173,7 +225,9 @@ def check(case):
 def classify(case, info):
     lay = case['lay']
     labels = ['backend:' + lay['backend'], 'dtype:' + lay['dtype'], 'mode:' + case['mode']]
-    nt = False
+    nt = case['mode'] == 'rewrite'
+    if lay['n'] > 65536:
+        labels.append('more-than-2**16-rows')
     if len(lay['parts']) >= 2:
         labels.append('multi-file')
         nt = True
